@@ -45,7 +45,7 @@ ASSUMPTIONS = [
 ]
 CASES = {'quick': 10000, 'thorough': 120000}
 TIME = {'quick': 75, 'thorough': 560}
-MIN_NONTRIVIAL = {'quick': 1500, 'thorough': 15000}
+MIN_NONTRIVIAL = {'quick': 1000, 'thorough': 10000}
 REQUIRED = ('round_trips', 'replays_compared', 'partial_histories',
             'decimal_histories', 'user_field_histories',
             'unknown_hole_replays', 'corruptions_checked',
